@@ -228,7 +228,7 @@ func (e *Exec) builtin(st *State, b *ssa.Builtin, c *ssa.CallCommon, args []Val,
 				return &Poison{Why: "copy"}
 			}
 			for i := 0; i < int(n); i++ {
-				srcElems = append(srcElems, e.load(st, &Ptr{Obj: src.Obj, Path: appendStep(src.Path, Step{Idx: s.Int(int64(src.Off + i))})}, where))
+				srcElems = append(srcElems, e.load(st, &Ptr{Obj: src.Obj, Path: appendStep(src.Path, Step{Idx: e.slIdx(src, e.S.Int(int64(i)))})}, where))
 			}
 		case *StrV:
 			for _, bt := range e.strBytes(src) {
@@ -248,7 +248,7 @@ func (e *Exec) builtin(st *State, b *ssa.Builtin, c *ssa.CallCommon, args []Val,
 			n = int(dn)
 		}
 		for i := 0; i < n; i++ {
-			e.store(st, &Ptr{Obj: dst.Obj, Path: appendStep(dst.Path, Step{Idx: s.Int(int64(dst.Off + i))})}, srcElems[i], where)
+			e.store(st, &Ptr{Obj: dst.Obj, Path: appendStep(dst.Path, Step{Idx: e.slIdx(dst, e.S.Int(int64(i)))})}, srcElems[i], where)
 		}
 		return e.F.IntConst(big.NewInt(int64(n)), types.Typ[types.Int])
 	case "delete":
@@ -312,7 +312,7 @@ func (e *Exec) appendOp(st *State, a0, a1 Val, c *ssa.CallCommon, where string) 
 			return &Poison{Why: "append"}
 		}
 		for i := 0; i < int(n); i++ {
-			add = append(add, e.load(st, &Ptr{Obj: src.Obj, Path: appendStep(src.Path, Step{Idx: s.Int(int64(src.Off + i))})}, where))
+			add = append(add, e.load(st, &Ptr{Obj: src.Obj, Path: appendStep(src.Path, Step{Idx: e.slIdx(src, e.S.Int(int64(i)))})}, where))
 		}
 	case *StrV:
 		for _, bt := range e.strBytes(src) {
@@ -334,9 +334,13 @@ func (e *Exec) appendOp(st *State, a0, a1 Val, c *ssa.CallCommon, where string) 
 	if len(add) == 0 {
 		return dst
 	}
+	if dst.OffT != nil {
+		e.unsupported(st, "append to a slice with symbolic offset at "+where)
+		return &Poison{Why: "append"}
+	}
 	if dst.Obj != 0 && n+len(add) <= dst.Cap {
 		for i, v := range add {
-			e.store(st, &Ptr{Obj: dst.Obj, Path: appendStep(dst.Path, Step{Idx: s.Int(int64(dst.Off + n + i))})}, v, where)
+			e.store(st, &Ptr{Obj: dst.Obj, Path: appendStep(dst.Path, Step{Idx: e.slIdx(dst, e.S.Int(int64(n + i)))})}, v, where)
 		}
 		return &SliceV{Obj: dst.Obj, Path: dst.Path, Off: dst.Off, Len: s.Int(int64(n + len(add))), Cap: dst.Cap, Elem: et}
 	}
@@ -349,7 +353,7 @@ func (e *Exec) appendOp(st *State, a0, a1 Val, c *ssa.CallCommon, where string) 
 	}
 	elems := make([]Val, ncap)
 	for i := 0; i < n; i++ {
-		elems[i] = e.load(st, &Ptr{Obj: dst.Obj, Path: appendStep(dst.Path, Step{Idx: s.Int(int64(dst.Off + i))})}, where)
+		elems[i] = e.load(st, &Ptr{Obj: dst.Obj, Path: appendStep(dst.Path, Step{Idx: e.slIdx(dst, e.S.Int(int64(i)))})}, where)
 	}
 	for i, v := range add {
 		elems[n+i] = v
@@ -372,7 +376,7 @@ func (e *Exec) sliceElems(st *State, v Val, where string) []Val {
 	}
 	out := make([]Val, n)
 	for i := range out {
-		out[i] = e.load(st, &Ptr{Obj: sl.Obj, Path: appendStep(sl.Path, Step{Idx: e.S.Int(int64(sl.Off + i))})}, where)
+		out[i] = e.load(st, &Ptr{Obj: sl.Obj, Path: appendStep(sl.Path, Step{Idx: e.slIdx(sl, e.S.Int(int64(i)))})}, where)
 	}
 	return out
 }
